@@ -1,3 +1,576 @@
-import TenpyModel.C02.Struct
+import TenpyModel.C02.PropsSlice
+/-!
+# C02 part 3 — merge of two sorted row lists (`ibinary_blockwise`, `iadd_prefactor_other`), `outer`.
+-/
 open TenpyModel.Core TenpyModel.C02
-theorem C02_placeholder_PropsMerge : True := trivial
+namespace TenpyModel.C02
+
+/-! ### the merge loop on two strictly ascending key lists -/
+
+theorem mergeKeys_mem (key : List Nat → Nat) (as bs : List (List Nat)) :
+    ∀ z ∈ ArrS.mergeKeys key as bs, z ∈ as ∨ z ∈ bs := by
+  fun_induction ArrS.mergeKeys key as bs with
+  | case1 bs => intro z hz; exact Or.inr hz
+  | case2 as _ => intro z hz; exact Or.inl hz
+  | case3 x xs y ys hk ih =>
+    intro z hz
+    rcases List.mem_cons.mp hz with rfl | hz
+    · exact Or.inl (by simp)
+    · rcases ih z hz with h | h
+      · exact Or.inl (by simp [h])
+      · exact Or.inr (by simp [h])
+  | case4 x xs y ys hk hgt ih =>
+    intro z hz
+    rcases List.mem_cons.mp hz with rfl | hz
+    · exact Or.inr (by simp)
+    · rcases ih z hz with h | h
+      · exact Or.inl h
+      · exact Or.inr (by simp [h])
+  | case5 x xs y ys hk hgt ih =>
+    intro z hz
+    rcases List.mem_cons.mp hz with rfl | hz
+    · exact Or.inl (by simp)
+    · rcases ih z hz with h | h
+      · exact Or.inl (by simp [h])
+      · exact Or.inr h
+
+theorem mergeKeys_sorted (key : List Nat → Nat) (as bs : List (List Nat))
+    (ha : as.Pairwise (fun x y => key x < key y)) (hb : bs.Pairwise (fun x y => key x < key y)) :
+    (ArrS.mergeKeys key as bs).Pairwise (fun x y => key x < key y) := by
+  fun_induction ArrS.mergeKeys key as bs with
+  | case1 bs => exact hb
+  | case2 as _ => exact ha
+  | case3 x xs y ys hk ih =>
+    rw [List.pairwise_cons] at ha hb ⊢
+    refine ⟨?_, ih ha.2 hb.2⟩
+    intro z hz
+    rcases mergeKeys_mem key xs ys z hz with h | h
+    · exact ha.1 z h
+    · rw [hk]; exact hb.1 z h
+  | case4 x xs y ys hk hgt ih =>
+    rw [List.pairwise_cons] at hb ⊢
+    refine ⟨?_, ih ha hb.2⟩
+    intro z hz
+    rcases mergeKeys_mem key (x :: xs) ys z hz with h | h
+    · rcases List.mem_cons.mp h with rfl | h
+      · exact hgt
+      · exact Nat.lt_trans hgt ((List.pairwise_cons.mp ha).1 z h)
+    · exact hb.1 z h
+  | case5 x xs y ys hk hgt ih =>
+    rw [List.pairwise_cons] at ha ⊢
+    have hlt : key x < key y := by omega
+    refine ⟨?_, ih ha.2 hb⟩
+    intro z hz
+    rcases mergeKeys_mem key xs (y :: ys) z hz with h | h
+    · exact ha.1 z h
+    · rcases List.mem_cons.mp h with rfl | h
+      · exact hlt
+      · exact Nat.lt_trans hlt ((List.pairwise_cons.mp hb).1 z h)
+
+end TenpyModel.C02
+
+namespace TenpyModel.C02
+
+/-! ### F-style keys are strictly monotone in the row order (rows in range) -/
+
+theorem foldl_add_shift (l : List Nat) (z : Nat) : l.foldl (· + ·) z = z + l.foldl (· + ·) 0 := by
+  induction l generalizing z with
+  | nil => simp
+  | cons x xs ih => simp only [List.foldl_cons]; rw [ih (z + x), ih (0 + x)]; omega
+
+theorem dot_cons (x y : Nat) (xs ys : List Nat) : dot (x :: xs) (y :: ys) = x * y + dot xs ys := by
+  unfold dot
+  simp only [List.zipWith_cons_cons, List.foldl_cons]
+  rw [foldl_add_shift]; omega
+
+theorem dot_nil_left (ys : List Nat) : dot [] ys = 0 := by simp [dot]
+
+theorem dot_go_scale (acc : Nat) (shape r : List Nat) :
+    dot r (makeStrideF.go acc shape) = acc * dot r (makeStrideF.go 1 shape) := by
+  induction shape generalizing acc r with
+  | nil => simp [makeStrideF.go, dot]
+  | cons s rest ih =>
+    cases r with
+    | nil => simp [dot_nil_left]
+    | cons x xs =>
+      simp only [makeStrideF.go, dot_cons]
+      rw [ih (acc * s), ih (1 * s)]
+      simp [Nat.mul_add, Nat.mul_assoc, Nat.mul_comm, Nat.mul_left_comm]
+
+theorem keyF_cons (s : Nat) (rest : List Nat) (x : Nat) (xs : List Nat) :
+    ArrS.keyF (s :: rest) (x :: xs) = x + s * ArrS.keyF rest xs := by
+  unfold ArrS.keyF makeStrideF
+  simp only [makeStrideF.go, dot_cons, Nat.mul_one]
+  rw [dot_go_scale (1 * s)]
+  simp
+
+/-- rows within `shape`: same length and entry-wise smaller -/
+def inShape : List Nat → List Nat → Prop
+  | [], [] => True
+  | s :: shape, x :: xs => x < s ∧ inShape shape xs
+  | _, _ => False
+
+theorem keyF_mono (shape x y : List Nat) (hx : inShape shape x) (hy : inShape shape y) :
+    (rowLT x y = true ↔ ArrS.keyF shape x < ArrS.keyF shape y) ∧ (x = y ↔ ArrS.keyF shape x = ArrS.keyF shape y) := by
+  induction shape generalizing x y with
+  | nil =>
+    cases x <;> cases y <;> simp_all [inShape, rowLT, revLT]
+  | cons s rest ih =>
+    cases x with
+    | nil => simp [inShape] at hx
+    | cons a xs =>
+      cases y with
+      | nil => simp [inShape] at hy
+      | cons b ys =>
+        simp only [inShape] at hx hy
+        obtain ⟨h1, h2⟩ := ih xs ys hx.2 hy.2
+        have hl : xs.length = ys.length := by
+          have lenOf : ∀ (sh r : List Nat), inShape sh r → r.length = sh.length := by
+            intro sh
+            induction sh with
+            | nil => intro r hr; cases r <;> simp_all [inShape]
+            | cons s sh ihs => intro r hr; cases r <;> simp_all [inShape]
+          rw [lenOf rest xs hx.2, lenOf rest ys hy.2]
+        rw [rowLT_cons a b hl, keyF_cons, keyF_cons]
+        generalize ArrS.keyF rest xs = k1 at *
+        generalize ArrS.keyF rest ys = k2 at *
+        have ha := hx.1
+        have hb := hy.1
+        constructor
+        · constructor
+          · intro h
+            simp only [Bool.or_eq_true, Bool.and_eq_true, beq_iff_eq, decide_eq_true_eq] at h
+            rcases h with h | ⟨h, hab⟩
+            · have hk := h1.mp h
+              have : s * k1 + s ≤ s * k2 := by
+                have := Nat.mul_le_mul_left s (show k1 + 1 ≤ k2 from hk)
+                rwa [Nat.mul_add, Nat.mul_one] at this
+              omega
+            · have hk := h2.mp h
+              subst hk; omega
+          · intro h
+            simp only [Bool.or_eq_true, Bool.and_eq_true, beq_iff_eq, decide_eq_true_eq]
+            rcases Nat.lt_trichotomy k1 k2 with hk | hk | hk
+            · left; exact h1.mpr hk
+            · right; subst hk; exact ⟨h2.mpr rfl, by omega⟩
+            · exfalso
+              have : s * k2 + s ≤ s * k1 := by
+                have := Nat.mul_le_mul_left s (show k2 + 1 ≤ k1 from hk)
+                rwa [Nat.mul_add, Nat.mul_one] at this
+              omega
+        · constructor
+          · intro h
+            simp only [List.cons.injEq] at h
+            rw [h.1, h2.mp h.2]
+          · intro h
+            rcases Nat.lt_trichotomy k1 k2 with hk | hk | hk
+            · exfalso
+              have : s * k1 + s ≤ s * k2 := by
+                have := Nat.mul_le_mul_left s (show k1 + 1 ≤ k2 from hk)
+                rwa [Nat.mul_add, Nat.mul_one] at this
+              omega
+            · subst hk
+              rw [h2.mpr rfl]
+              congr 1; omega
+            · exfalso
+              have : s * k2 + s ≤ s * k1 := by
+                have := Nat.mul_le_mul_left s (show k2 + 1 ≤ k1 from hk)
+                rwa [Nat.mul_add, Nat.mul_one] at this
+              omega
+
+theorem inShape_of_rowInRange {legs : List LegS} {r : List Nat} (h : rowInRange legs r = true) :
+    inShape (legs.map LegS.blockNumber) r := by
+  unfold rowInRange at h
+  simp only [Bool.and_eq_true, beq_iff_eq, List.all_eq_true] at h
+  obtain ⟨hl, h⟩ := h
+  induction legs generalizing r with
+  | nil => cases r with
+    | nil => trivial
+    | cons q r => simp at hl
+  | cons l legs ih =>
+    cases r with
+    | nil => simp at hl
+    | cons q r =>
+      simp only [List.zipWith_cons_cons, List.mem_cons, id_eq, forall_eq_or_imp, decide_eq_true_eq] at h
+      exact ⟨h.1, ih (by simpa using hl) h.2⟩
+
+end TenpyModel.C02
+
+namespace TenpyModel.C02
+
+/-! ### legs that are `test_equal` carry the same charge rule -/
+
+theorem makeValid_csum_congr (M : List Nat) (cs ds : List Charge) (hl : cs.length = ds.length)
+    (hcs : ∀ c ∈ cs, c.length = M.length) (hds : ∀ c ∈ ds, c.length = M.length)
+    (h : ∀ i (h1 : i < cs.length) (h2 : i < ds.length), makeValid M cs[i] = makeValid M ds[i]) :
+    makeValid M (csum M.length cs) = makeValid M (csum M.length ds) := by
+  induction cs generalizing ds with
+  | nil => cases ds with
+    | nil => rfl
+    | cons d ds => simp at hl
+  | cons c cs ih =>
+    cases ds with
+    | nil => simp at hl
+    | cons d ds =>
+      have hc := hcs c (by simp)
+      have hd := hds d (by simp)
+      have hcs' : ∀ c ∈ cs, c.length = M.length := fun c hc => hcs c (by simp [hc])
+      have hds' : ∀ c ∈ ds, c.length = M.length := fun c hc => hds c (by simp [hc])
+      rw [csum_cons _ c cs hc hcs', csum_cons _ d ds hd hds']
+      have h0 := h 0 (by simp) (by simp)
+      simp only [List.getElem_cons_zero] at h0
+      have ih' := ih ds (by simpa using hl) hcs' hds' (by
+        intro i h1 h2
+        have := h (i + 1) (by simpa using h1) (by simpa using h2)
+        simpa using this)
+      rw [← makeValid_add, ← makeValid_add_left, h0, ih', makeValid_add_left, makeValid_add]
+
+theorem testEqual_unpack {la lb : Leg} (h : la.testEqual lb = true) :
+    la.mods = lb.mods ∧ la.slices = lb.slices ∧ la.physCharges = lb.physCharges := by
+  unfold Leg.testEqual Leg.eq? at h
+  by_cases hm : la.mods ≠ lb.mods
+  · simp [hm] at h
+  · simp only [hm, ↓reduceIte, beq_iff_eq, Option.some.injEq, Bool.and_eq_true] at h
+    exact ⟨by simpa using hm, h.1, h.2⟩
+
+theorem blockNumber_of_slices {l : Leg} (h : l.sane = true) : l.blockNumber = l.slices.length - 1 := by
+  have := (Leg.sane_slices h).1; omega
+
+theorem physCharges_getElem {la lb : Leg} (h : la.physCharges = lb.physCharges) (hm : la.mods = lb.mods)
+    (i : Nat) (h1 : i < la.blockNumber) (h2 : i < lb.blockNumber) :
+    makeValid la.mods (la.getCharge i) = makeValid la.mods (lb.getCharge i) := by
+  unfold Leg.physCharges at h
+  unfold Leg.blockNumber at h1 h2
+  have := congrArg (fun l => l[i]?) h
+  simp only [List.getElem?_map, List.getElem?_eq_getElem h1, List.getElem?_eq_getElem h2, Option.map_some,
+    Option.some.injEq] at this
+  unfold Leg.getCharge
+  simp only [List.getD, List.getElem?_eq_getElem h1, List.getElem?_eq_getElem h2, Option.getD_some]
+  rw [this, hm]
+
+/-- a row that is admissible for legs `lo` is admissible for `test_equal` legs `la`, with the same block charge -/
+theorem row_transport {la lo : List LegS} {M : List Nat}
+    (hoka : ∀ l ∈ la, l.ok = true ∧ l.leg.mods = M) (hoko : ∀ l ∈ lo, l.ok = true ∧ l.leg.mods = M)
+    (hlen : la.length = lo.length)
+    (heq : ∀ i (h1 : i < la.length) (h2 : i < lo.length), (la[i]).leg.testEqual (lo[i]).leg = true)
+    {r : List Nat} (hr : rowInRange lo r = true) :
+    rowInRange la r = true ∧ blockCharge M la r = blockCharge M lo r := by
+  have hr' := (rowInRange_iff _ _).mp hr
+  have hbn : ∀ i (h1 : i < la.length) (h2 : i < lo.length), (la[i]).blockNumber = (lo[i]).blockNumber := by
+    intro i h1 h2
+    have hu := testEqual_unpack (heq i h1 h2)
+    have sa := LegS.ok_sane (hoka _ (List.getElem_mem h1)).1
+    have so := LegS.ok_sane (hoko _ (List.getElem_mem h2)).1
+    unfold LegS.blockNumber
+    rw [blockNumber_of_slices sa, blockNumber_of_slices so, hu.2.1]
+  have hra : rowInRange la r = true := by
+    rw [rowInRange_iff]
+    refine ⟨by rw [hr'.1, hlen], ?_⟩
+    intro i hi
+    rw [hbn i hi (by omega)]
+    exact hr'.2 i (by omega)
+  refine ⟨hra, ?_⟩
+  unfold blockCharge
+  rw [rawCharge_eq, rawCharge_eq]
+  have hla := chList_lengths hoka hra
+  have hlo := chList_lengths hoko hr
+  apply makeValid_csum_congr M _ _ (by simp [chList, hlen]) hla hlo
+  intro i h1 h2
+  simp only [chList, List.length_zipWith] at h1 h2
+  have hi1 : i < la.length := by omega
+  have hi2 : i < lo.length := by omega
+  have hir : i < r.length := by omega
+  simp only [chList, List.getElem_zipWith]
+  have hu := testEqual_unpack (heq i hi1 hi2)
+  have hq := hr'.2 i hi2
+  simp only [List.getD, List.getElem?_eq_getElem hir, Option.getD_some] at hq
+  have := physCharges_getElem hu.2.2 hu.1 r[i] (by rw [← LegS.blockNumber, hbn i hi1 hi2]; exact hq) hq
+  rw [(hoka _ (List.getElem_mem hi1)).2] at this
+  exact this
+
+end TenpyModel.C02
+
+namespace TenpyModel.C02
+
+theorem legsEqual_unpack {a o : ArrS} (h : ArrS.legsEqual a o = true) :
+    a.legs.length = o.legs.length ∧
+      ∀ i (h1 : i < a.legs.length) (h2 : i < o.legs.length), (a.legs[i]).leg.testEqual (o.legs[i]).leg = true := by
+  unfold ArrS.legsEqual ArrS.rank at h
+  simp only [Bool.and_eq_true, beq_iff_eq, List.all_eq_true] at h
+  refine ⟨h.1, ?_⟩
+  intro i h1 h2
+  have hz : i < (a.legs.zip o.legs).length := by simp [List.length_zip]; omega
+  have := h.2 ((a.legs.zip o.legs)[i]) (List.getElem_mem hz)
+  simpa [List.getElem_zip] using this
+
+theorem isort_sorted (a : ArrS) : a.isortQdata.sorted = true := by
+  unfold ArrS.isortQdata
+  split
+  · assumption
+  · split <;> rfl
+
+/-- merge of the rows of two lexsorted, duplicate-free arrays with `test_equal` legs and equal `qtotal` -/
+theorem WFP_merge {a o : ArrS} (ha : WFP a) (ho : WFP o) (hsa : a.sorted = true) (hso : o.sorted = true)
+    (heq : ArrS.legsEqual a o = true) (hq : a.qtotal = o.qtotal) :
+    WFP { a with qdata := if a.qdata == o.qdata then a.qdata
+                          else ArrS.mergeKeys (ArrS.keyF a.qshape) a.qdata o.qdata } := by
+  split
+  · exact ha
+  · obtain ⟨hlen, hte⟩ := legsEqual_unpack heq
+    have hmods : o.mods = a.mods := by
+      have hpos : 0 < a.legs.length := List.length_pos_iff.mpr ha.rank_pos
+      have h0 := testEqual_unpack (hte 0 hpos (by omega))
+      rw [← (ha.legs_ok _ (List.getElem_mem hpos)).2, ← (ho.legs_ok _ (List.getElem_mem (by omega : 0 < o.legs.length))).2]
+      exact h0.1.symm
+    have hoko : ∀ l ∈ o.legs, l.ok = true ∧ l.leg.mods = a.mods := by
+      intro l hl; rw [← hmods]; exact ho.legs_ok l hl
+    -- every row of `o` is admissible for the legs of `a`
+    have hrow_o : ∀ r ∈ o.qdata, rowInRange a.legs r = true ∧ blockCharge a.mods a.legs r = a.qtotal := by
+      intro r hr
+      have h0 := ho.rows_ok r hr
+      have := row_transport ha.legs_ok hoko hlen hte h0.1
+      refine ⟨this.1, ?_⟩
+      rw [this.2, hq, ← h0.2, hmods]
+    have hin_a : ∀ r ∈ a.qdata, inShape a.qshape r := fun r hr => inShape_of_rowInRange (ha.rows_ok r hr).1
+    have hin_o : ∀ r ∈ o.qdata, inShape a.qshape r := fun r hr => inShape_of_rowInRange (hrow_o r hr).1
+    have hlen_of : ∀ r, inShape a.qshape r → r.length = a.qshape.length := by
+      have lenOf : ∀ (sh r : List Nat), inShape sh r → r.length = sh.length := by
+        intro sh
+        induction sh with
+        | nil => intro r hr; cases r <;> simp_all [inShape]
+        | cons s sh ihs => intro r hr; cases r <;> simp_all [inShape]
+      exact fun r hr => lenOf _ r hr
+    -- strictly ascending keys
+    have key_of : ∀ (rows : List (List Nat)), (∀ r ∈ rows, inShape a.qshape r) →
+        rows.Pairwise (fun x y => rowLE x y = true) → rows.Pairwise (· ≠ ·) →
+        rows.Pairwise (fun x y => ArrS.keyF a.qshape x < ArrS.keyF a.qshape y) := by
+      intro rows hin h1 h2
+      have hlt := (pairwise_rowLT_iff (n := a.qshape.length) (fun r hr => hlen_of r (hin r hr))).mpr ⟨h1, h2⟩
+      rw [List.pairwise_iff_forall_sublist] at hlt ⊢
+      intro x y hxy
+      have hx := hin x (hxy.subset (by simp))
+      have hy := hin y (hxy.subset (by simp))
+      exact (keyF_mono a.qshape x y hx hy).1.mp (hlt hxy)
+    have hka := key_of a.qdata hin_a (ha.sorted_ok hsa) ha.nodup
+    have hko := key_of o.qdata hin_o (ho.sorted_ok hso) ho.nodup
+    have hmem := mergeKeys_mem (ArrS.keyF a.qshape) a.qdata o.qdata
+    have hsorted := mergeKeys_sorted (ArrS.keyF a.qshape) a.qdata o.qdata hka hko
+    have hin_m : ∀ r ∈ ArrS.mergeKeys (ArrS.keyF a.qshape) a.qdata o.qdata, inShape a.qshape r := by
+      intro r hr; rcases hmem r hr with h | h; exact hin_a r h; exact hin_o r h
+    have hlt_m : (ArrS.mergeKeys (ArrS.keyF a.qshape) a.qdata o.qdata).Pairwise (fun x y => rowLT x y = true) := by
+      rw [List.pairwise_iff_forall_sublist] at hsorted ⊢
+      intro x y hxy
+      have hx := hin_m x (hxy.subset (by simp))
+      have hy := hin_m y (hxy.subset (by simp))
+      exact (keyF_mono a.qshape x y hx hy).1.mpr (hsorted hxy)
+    have hboth := (pairwise_rowLT_iff (n := a.qshape.length) (fun r hr => hlen_of r (hin_m r hr))).mp hlt_m
+    refine ⟨ha.rank_pos, ha.mods_pos, ha.legs_ok, ha.qtotal_valid, ?_, hboth.2, fun _ => hboth.1⟩
+    intro r hr
+    rcases hmem r hr with h | h
+    · exact ha.rows_ok r h
+    · exact hrow_o r h
+
+end TenpyModel.C02
+
+/-- `ibinary_blockwise` (`+=`, `-=`, …): both operands are lexsorted first, the merge of two sorted duplicate-free
+row lists is sorted and duplicate-free, so the flag set by `isort_qdata` stays truthful. `other` is sorted in place
+(or untouched when it had to be transposed). `hperm`: the label transposition is a permutation of the axes. -/
+theorem C02_WF_ibinary (a b : ArrS) (perm : Option (List Nat)) (a' b' : ArrS) (ha : a.WF) (hb : b.WF)
+    (hperm : ∀ ax, perm = some ax → ax.Perm (List.range b.rank))
+    (h : a.ibinary b perm = some (a', b')) : a'.WF ∧ b'.WF := by
+  unfold ArrS.ibinary at h
+  simp only at h
+  split at h
+  · cases h
+  · rename_i hc
+    simp only [Bool.or_eq_true, Bool.not_eq_true', bne_iff_ne, ne_eq, not_or, Bool.not_eq_false, Decidable.not_not] at hc
+    have ho : (ArrS.transposeSame b perm).WF := by
+      unfold ArrS.transposeSame
+      cases perm with
+      | none => exact hb
+      | some ax => rw [WF_iff] at *; exact WFP_permuteAxes hb ax (hperm ax rfl)
+    have ha1 := C02_WF_isortQdata a ha
+    have ho1 := C02_WF_isortQdata _ ho
+    simp only [Option.some.injEq, Prod.mk.injEq] at h
+    obtain ⟨h1, h2⟩ := h
+    constructor
+    · rw [← h1]
+      rw [WF_iff] at ha1 ho1 ⊢
+      have hle : ArrS.legsEqual a.isortQdata (ArrS.transposeSame b perm).isortQdata = true := by
+        have e1 : a.isortQdata.legs = a.legs := by unfold ArrS.isortQdata; split; rfl; split <;> rfl
+        have e2 : (ArrS.transposeSame b perm).isortQdata.legs = (ArrS.transposeSame b perm).legs := by
+          unfold ArrS.isortQdata; split; rfl; split <;> rfl
+        unfold ArrS.legsEqual ArrS.rank at *
+        rw [e1, e2]; exact hc.1
+      have hqe : a.isortQdata.qtotal = (ArrS.transposeSame b perm).isortQdata.qtotal := by
+        have e1 : a.isortQdata.qtotal = a.qtotal := by unfold ArrS.isortQdata; split; rfl; split <;> rfl
+        have e2 : (ArrS.transposeSame b perm).isortQdata.qtotal = (ArrS.transposeSame b perm).qtotal := by
+          unfold ArrS.isortQdata; split; rfl; split <;> rfl
+        rw [e1, e2]; exact hc.2
+      have hqs : a.isortQdata.qshape = a.qshape := by
+        unfold ArrS.qshape; congr 1; unfold ArrS.isortQdata; split; rfl; split <;> rfl
+      have := WFP_merge ha1 ho1 (isort_sorted a) (isort_sorted _) hle hqe
+      rw [hqs] at this
+      exact this
+    · rw [← h2]
+      split
+      · exact hb
+      · exact ho1
+
+example : ((exA.ibinary exA.isortQdata none).map (fun p => (p.1.qdata, p.1.sorted, p.2.sorted)))
+    = some ([[0, 0], [1, 1]], true, true) := by decide
+
+/-- `iadd_prefactor_other` in both kernels (compiled twin as repaired: label transposition first) -/
+theorem C02_WF_iaddPrefactorOther (cy : Bool) (a b : ArrS) (perm : Option (List Nat)) (isZero : Bool) (a' b' : ArrS)
+    (ha : a.WF) (hb : b.WF) (hperm : ∀ ax, perm = some ax → ax.Perm (List.range b.rank))
+    (h : ArrS.iaddPrefactorOther cy a b perm isZero = some (a', b')) : a'.WF ∧ b'.WF := by
+  unfold ArrS.iaddPrefactorOther at h
+  cases cy with
+  | true =>
+    simp only [↓reduceIte] at h
+    split at h
+    · cases h
+    · split at h
+      · simp only [Option.some.injEq, Prod.mk.injEq] at h
+        exact ⟨h.1 ▸ ha, h.2 ▸ hb⟩
+      · exact C02_WF_ibinary a b perm a' b' ha hb hperm h
+  | false =>
+    simp only [Bool.false_eq_true, ↓reduceIte] at h
+    cases hib : a.ibinary (b.iscalePrefactor isZero) perm with
+    | none => simp [hib] at h
+    | some p =>
+      obtain ⟨x, y⟩ := p
+      simp only [hib, Option.some.injEq, Prod.mk.injEq] at h
+      have hbs := C02_WF_iscalePrefactor b isZero hb
+      have hr : (b.iscalePrefactor isZero).rank = b.rank := by
+        unfold ArrS.iscalePrefactor ArrS.rank; split <;> rfl
+      have := C02_WF_ibinary a _ perm x y ha hbs (by intro ax hax; rw [hr]; exact hperm ax hax) hib
+      exact ⟨h.1 ▸ this.1, h.2 ▸ hb⟩
+
+/-- an addition keeps the total charge -/
+theorem C02_qtotal_ibinary (a b : ArrS) (perm : Option (List Nat)) (a' b' : ArrS)
+    (h : a.ibinary b perm = some (a', b')) : a'.qtotal = a.qtotal := by
+  unfold ArrS.ibinary at h
+  simp only at h
+  split at h
+  · cases h
+  · simp only [Option.some.injEq, Prod.mk.injEq] at h
+    rw [← h.1]
+    show a.isortQdata.qtotal = a.qtotal
+    unfold ArrS.isortQdata; split; rfl; split <;> rfl
+
+namespace TenpyModel.C02
+
+theorem rowInRange_append {la lb : List LegS} {ra rb : List Nat} (ha : rowInRange la ra = true)
+    (hb : rowInRange lb rb = true) : rowInRange (la ++ lb) (ra ++ rb) = true := by
+  unfold rowInRange at *
+  simp only [Bool.and_eq_true, beq_iff_eq, List.all_eq_true] at *
+  refine ⟨by simp [ha.1, hb.1], ?_⟩
+  rw [List.zipWith_append ha.1.symm]
+  intro x hx
+  rcases List.mem_append.mp hx with h | h
+  · exact ha.2 x h
+  · exact hb.2 x h
+
+theorem chList_append {la lb : List LegS} {ra rb : List Nat} (h : ra.length = la.length) :
+    chList (la ++ lb) (ra ++ rb) = chList la ra ++ chList lb rb := by
+  unfold chList
+  rw [List.zipWith_append h.symm]
+
+end TenpyModel.C02
+
+/-- `outer`: rows are all concatenations `ra ++ rb` with `a` running fastest; this list is lexsorted exactly when
+both factors are (the columns of `b` are the more significant ones), which is the flag the code sets. -/
+theorem C02_WF_outer (a b c : ArrS) (ha : a.WF) (hb : b.WF) (h : outer a b = some c) : c.WF := by
+  rw [WF_iff] at *
+  unfold outer at h
+  split at h
+  · cases h
+  · rename_i hm
+    simp only [ne_eq, Decidable.not_not] at hm
+    cases h
+    have hmods : ArrS.modsOf (a.legs ++ b.legs) = a.mods := by
+      unfold ArrS.mods
+      cases hl : a.legs with
+      | nil => exact absurd hl ha.rank_pos
+      | cons l ls => rfl
+    have hok : ∀ l ∈ a.legs ++ b.legs, l.ok = true ∧ l.leg.mods = a.mods := by
+      intro l hl
+      rcases List.mem_append.mp hl with h | h
+      · exact ha.legs_ok l h
+      · rw [hm]; exact hb.legs_ok l h
+    have hqa := checkValid_length ha.qtotal_valid
+    have hqb := checkValid_length hb.qtotal_valid
+    have hla : ∀ r ∈ a.qdata, r.length = a.legs.length := fun r hr => ha.row_length hr
+    have hlb : ∀ r ∈ b.qdata, r.length = b.legs.length := fun r hr => hb.row_length hr
+    refine ⟨by simp [ha.rank_pos], ?_, ?_, ?_, ?_, ?_, ?_⟩
+    · show ∀ m ∈ ArrS.modsOf (a.legs ++ b.legs), 1 ≤ m
+      rw [hmods]; exact ha.mods_pos
+    · show ∀ l ∈ a.legs ++ b.legs, l.ok = true ∧ l.leg.mods = ArrS.modsOf (a.legs ++ b.legs)
+      rw [hmods]; exact hok
+    · show checkValid (ArrS.modsOf (a.legs ++ b.legs)) (makeValid a.mods (cadd a.qtotal b.qtotal)) = true
+      rw [hmods]
+      exact checkValid_makeValid _ ha.mods_pos _ (by simp [cadd_length, hqa, hqb, hm])
+    · intro r hr
+      simp only [List.mem_flatMap, List.mem_map] at hr
+      obtain ⟨rb, hrb, ra, hra, rfl⟩ := hr
+      have h0a := ha.rows_ok ra hra
+      have h0b := hb.rows_ok rb hrb
+      show rowInRange (a.legs ++ b.legs) (ra ++ rb) = true ∧
+        blockCharge (ArrS.modsOf (a.legs ++ b.legs)) (a.legs ++ b.legs) (ra ++ rb) = makeValid a.mods (cadd a.qtotal b.qtotal)
+      rw [hmods]
+      refine ⟨rowInRange_append h0a.1 h0b.1, ?_⟩
+      unfold blockCharge
+      rw [rawCharge_eq, chList_append (hla ra hra)]
+      have hca := chList_lengths ha.legs_ok h0a.1
+      have hcb := chList_lengths hb.legs_ok h0b.1
+      rw [← hm] at hcb
+      rw [csum_append _ _ _ hca hcb, ← makeValid_add, ← makeValid_add_left]
+      have e1 : makeValid a.mods (csum a.mods.length (chList a.legs ra)) = a.qtotal := h0a.2
+      have e2 : makeValid a.mods (csum a.mods.length (chList b.legs rb)) = b.qtotal := by rw [hm]; exact h0b.2
+      rw [e1, e2]
+    · show (b.qdata.flatMap (fun rb => a.qdata.map (fun ra => ra ++ rb))).Pairwise (· ≠ ·)
+      rw [List.pairwise_flatMap]
+      constructor
+      · intro rb _
+        rw [List.pairwise_map]
+        exact ha.nodup.imp (fun hne e => hne (List.append_cancel_right e))
+      · have := hb.nodup
+        rw [List.pairwise_iff_forall_sublist] at this ⊢
+        intro rb rb' hs x hx y hy e
+        obtain ⟨ra, hra, rfl⟩ := List.mem_map.mp hx
+        obtain ⟨ra', hra', rfl⟩ := List.mem_map.mp hy
+        have := this hs
+        exact this (List.append_inj e (by rw [hla ra hra, hla ra' hra'])).2
+    · intro hs
+      simp only [Bool.and_eq_true] at hs
+      show (b.qdata.flatMap (fun rb => a.qdata.map (fun ra => ra ++ rb))).Pairwise _
+      rw [List.pairwise_flatMap]
+      constructor
+      · intro rb _
+        rw [List.pairwise_map]
+        refine (ha.sorted_ok hs.1).imp ?_
+        intro x y hxy
+        unfold rowLE at *
+        rw [rowLT_append_same_suffix]; exact hxy
+      · have hsb := (pairwise_rowLT_iff (n := b.legs.length) hlb).mpr ⟨hb.sorted_ok hs.2, hb.nodup⟩
+        rw [List.pairwise_iff_forall_sublist] at hsb ⊢
+        intro rb rb' hsub x hx y hy
+        obtain ⟨ra, hra, rfl⟩ := List.mem_map.mp hx
+        obtain ⟨ra', hra', rfl⟩ := List.mem_map.mp hy
+        have hmb := hlb rb (hsub.subset (by simp))
+        have hmb' := hlb rb' (hsub.subset (by simp))
+        exact rowLE_of_rowLT (rowLT_append_of_suffix (by rw [hmb, hmb']) (hsb hsub))
+
+/-- documented qtotal of `outer` (and of every contraction): the sum of the total charges -/
+theorem C02_qtotal_outer (a b c : ArrS) (h : outer a b = some c) : c.qtotal = makeValid a.mods (cadd a.qtotal b.qtotal) := by
+  unfold outer at h
+  split at h
+  · cases h
+  · cases h; rfl
+
+example : ((outer exA.isortQdata exA.isortQdata).map (fun c => (c.sorted, decide c.WF, c.qdata.length))) = some (true, true, 4) := by
+  decide
+
+/-- with one unsorted factor the product rows are not sorted: the flag has to be the conjunction -/
+example : ((outer exA exA.isortQdata).map (fun c => (c.sorted, rowsSorted c.qdata))) = some (false, false) := by decide
